@@ -31,7 +31,7 @@ def main(argv: List[str]) -> int:
     for seed, doc in ds:
         for fseed, pinned in docs.form_plan(nrand, True, seed):
             tid += 1
-            items[tid] = {'tid': tid, 'doc': doc, 'allow': False, 'want': 'model', 'fseed': fseed, 'pinned': pinned,
+            items[tid] = {'tid': tid, 'doc': doc, 'allow': tid % 3 == 0, 'want': 'model', 'fseed': fseed, 'pinned': pinned,
                           'seed': seed, 'gen': 'RandDoc'}
     # per-element feature products (exhaustive in the thorough tier), each in the canonical and two random forms
     complete = True
@@ -43,7 +43,7 @@ def main(argv: List[str]) -> int:
         for pid, doc in ps:
             for fseed, pinned in [(None, {}), (hash(pid) % 10 ** 6, {}), (hash(pid) % 10 ** 6 + 1, {})]:
                 tid += 1
-                items[tid] = {'tid': tid, 'doc': doc, 'allow': False, 'want': 'model', 'fseed': fseed, 'pinned': pinned,
+                items[tid] = {'tid': tid, 'doc': doc, 'allow': tid % 3 == 0, 'want': 'model', 'fseed': fseed, 'pinned': pinned,
                               'seed': pid, 'gen': 'GenProduct'}
     rep.notes['product_documents'] = nprod
     rep.notes['products_complete'] = complete
